@@ -16,6 +16,8 @@ LoopFailing(ev) ==
   IF UsageError(ev.cmd, ev.mode) THEN UsageFailing(ev) ELSE
   (IF Len(ev.seen) = Len(ev.files) /\ \A i \in DOMAIN ev.files : FileOk(ev.files[i], ev.seen[i])
    THEN <<>> ELSE <<"cli_marks">>)
+  \o (IF \A i \in DOMAIN ev.files : i \in DOMAIN ev.seen => CompletedLabelOk(ev.files[i], ev.seen[i])
+      THEN <<>> ELSE <<"cli_completed">>)
   \o (IF ev.order_ok THEN <<>> ELSE <<"cli_order">>)
   \o (IF ev.cmd = "inspect" /\ ev.aborted THEN <<"cli_inspect_aborted">> ELSE <<>>)
   \o (IF (\A i \in DOMAIN ev.files : IsValid(ev.files[i])) => ev.rc = 0 THEN <<>> ELSE <<"cli_rc">>)
